@@ -326,6 +326,13 @@ def parse_sentence(tag, dep, length, roots, bin_cb, un_cb, finalizer, scaffold, 
         tag.addr, dep.addr, length, arr, n, 1, 2, fi, sc, None, cache.ptr,
         int(cfg.num_tags), float(cfg.unary_penalty), float(cfg.beta), 1 if cfg.use_beta else 0,
         int(cfg.pruning_size), int(cfg.nbest), int(cfg.max_step))
+    # `&c_config`: the struct is shared with the C++ side, read back whatever it wrote
+    nt, pr, nb, ms, ub = ctypes.c_uint(), ctypes.c_uint(), ctypes.c_uint(), ctypes.c_uint(), ctypes.c_int()
+    up, be = ctypes.c_float(), ctypes.c_float()
+    lib().vp_cfg_get(ctypes.byref(nt), ctypes.byref(up), ctypes.byref(be), ctypes.byref(ub), ctypes.byref(pr),
+                     ctypes.byref(nb), ctypes.byref(ms))
+    cfg.num_tags, cfg.unary_penalty, cfg.beta, cfg.use_beta = nt.value, up.value, be.value, bool(ub.value)
+    cfg.pruning_size, cfg.nbest, cfg.max_step = pr.value, nb.value, ms.value
     if status == -1:
         if state['exc'] is not None:
             raise state['exc']          # Cython keeps the pending Python exception
